@@ -146,6 +146,14 @@ def gen_boards(rng, tier):
                 rw = [(k + 1) % 2 for k in range(n)]
                 to = lambda xs: [list(xs[r * W:(r + 1) * W]) for r in range(L)]
                 yield dict(board=(to(mv), to(rw), to(lo)), probs=(0.1, 0.2, 0.3))
+    # boards large enough for state numbers and offsets beyond 256 (CPython's cached small integers: identity and equality of
+    # int objects differ there), beyond 1000, and with single rows/columns
+    for (L, W) in dict(quick=[(9, 10), (1, 90)], thorough=[(9, 10), (10, 9), (1, 90), (90, 1), (18, 20), (30, 12)])[tier]:
+        fd = (L * W) % 2 == 0
+        mv = [[rng.choice([0, 1, 2, 3] if fd else [0, 1, 2]) for _ in range(W)] for _ in range(L)]
+        rw = [[rng.randint(0, 6) for _ in range(W)] for _ in range(L)]
+        lo = [[rng.randint(0, 1) for _ in range(W)] for _ in range(L)]
+        yield dict(board=(mv, rw, lo), probs=(0.1, 0.25, 0.5))
     n_rand = dict(quick=120, thorough=3000)[tier]
     for i in range(n_rand):
         L, W = rng.choice([(2, 2), (1, 4), (4, 1), (2, 3), (3, 2), (3, 3), (1, 5), (5, 1), (2, 4), (4, 4), (1, 1), (3, 1)])
@@ -153,7 +161,7 @@ def gen_boards(rng, tier):
         mv = [[rng.choice([0, 1, 2, 3] if fd else [0, 1, 2]) for _ in range(W)] for _ in range(L)]
         rw = [[rng.randint(0, 6) for _ in range(W)] for _ in range(L)]
         lo = [[rng.randint(0, 1) for _ in range(W)] for _ in range(L)]
-        yield dict(board=(mv, rw, lo), probs=(rng.choice([0.1, 0.125, 0.3, 0.996, 0.004]), rng.choice([0.1, 0.25, 0.01]), rng.choice([0.1, 0.5, 0.05])))
+        yield dict(board=(mv, rw, lo), probs=(rng.choice([0.1, 0.125, 0.3, 0.996, 0.004, 1 / 3, 0.12345, 0.99999]), rng.choice([0.1, 0.25, 0.01, 1 / 3, 0.12345, 1e-05, 0.99999]), rng.choice([0.1, 0.5, 0.05, 2 / 3, 0.54321, 1e-05])))
 
 
 def check_board(inp, mods, rng=None):
